@@ -76,7 +76,11 @@ def draw_bounds(rng, axes_too=True):
 def value_class(rng, lo, hi, integer=False):
     """(value, class)"""
     cls = rng.choice(["below", "min", "inside", "max", "above", "far-below", "far-above",
-                      "nan", "inf", "min", "max", "inside", "inside", "min", "max", "inside"])
+                      "nan", "inf", "min", "max", "inside", "inside", "min", "max", "inside", "zero"])
+    if cls == "zero":
+        # falsy values: 0, 0.0, -0.0 (inside or outside depending on the range)
+        v = 0 if integer else rng.choice([0, 0.0, -0.0])
+        return v, "zero:" + ("inside" if lo <= 0 <= hi else "outside")
     if integer:
         v = {"below": lo - 1, "min": lo, "inside": (lo + hi) // 2, "max": hi, "above": hi + 1,
              "far-below": lo - 100, "far-above": hi + 1000, "nan": hi + 1, "inf": lo - 1}[cls]
